@@ -61,6 +61,8 @@ register(Contract(
         f"implies(not self.__strict_mode and self.__stern_mode and not ({WS_BEYOND}), not {REPORTED})",
         f"implies(not self.__strict_mode and self.__stern_mode and len(line) > {LIMIT} and {WS_BEYOND}, {REPORTED})",
         "self.__line_index == old(self.__line_index) + 1",
+        # C07: the report is for the line being delivered, column 1 -- a position that exists in the file
+        f"implies({REPORTED}, g_reports[len(g_reports) - 1][1] == context.line_number and g_reports[len(g_reports) - 1][2] == 1)",
     ],
     raises=[Raises("BadPluginError")],
     modifies=["self.__leaf_token_index", "self.__line_index", "g_reports.$list"],
